@@ -28,6 +28,13 @@ def assembly(seed, tier, quick=80, thorough=3000):
     return dict(ok=r["ok"], cases=r["cases"], distinct_nontrivial=r["graphs"], graphs=r["graphs"], worlds=r["worlds"], features=r["features"], solve_checked=r["solve_checked"], solve_nonfinite=r["solve_nonfinite"], fixed_vertices=r["fixed_vertices"], samples=r["samples"], disagreements=r["disagreements"][:3])
 
 
+def graphiter(seed, tier, quick=60, thorough=2500):
+    from harness import graphiter as GI
+
+    r = GI.run(seed, quick if tier == "quick" else thorough)
+    return dict(ok=r["ok"], cases=r["cases"], distinct_nontrivial=r["graphs"], graphs=r["graphs"], worlds=r["worlds"], features=r["features"], fixed_vertices=r["fixed_vertices"], samples=r["samples"], disagreements=r["disagreements"][:3])
+
+
 def ctl(seed, tier, quick=(60, 400), thorough=(1500, 20000)):
     from harness import ctl as C
 
